@@ -229,14 +229,24 @@ fn cast_targets(dt: &DataType) -> Vec<DataType> {
 fn binary_kernels(rng: &mut Rng, c: &mut Ctx, dt: &DataType, thorough: bool) {
     // one call in four uses long arrays with very few nulls (kernels switch strategy on the
     // null density / on 64-element chunks); the realisations put garbage under those nulls
-    let long = dt.is_primitive() && rng.chance(25);
-    let n = if long { *rng.pick(&[64usize, 65, 128, 130, 200]) } else { mk::rand_len(rng, if thorough { 70 } else { 24 }) };
+    let long = dt.is_primitive() && rng.chance(50);
+    let n = if long { *rng.pick(&[64usize, 128, 130, 200, 256, 257]) } else { mk::rand_len(rng, if thorough { 70 } else { 24 }) };
     let sparse = |rng: &mut Rng, len: usize| -> ArrayRef {
-        let a = mk::array(rng, dt, len, Cfg::wild(0));
-        let mut valid = vec![true; len];
-        for _ in 0..(1 + rng.below(2)).min(len) {
-            valid[rng.below(len)] = false;
+        // small non-zero values (1..=3 in the lowest byte) so that checked operations normally
+        // succeed: an error can then only come from what sits under the null slot
+        let w = dt.primitive_width().unwrap_or(1);
+        let mut bytes = vec![0u8; w * len];
+        for i in 0..len {
+            bytes[i * w] = 1 + rng.below(3) as u8;
         }
+        let mut mb = arrow_buffer::MutableBuffer::new(bytes.len());
+        mb.extend_from_slice(&bytes);
+        let a = match arrow_data::ArrayData::builder(dt.clone()).len(len).add_buffer(mb.into()).build() {
+            Ok(d) => make_array(d),
+            Err(_) => mk::array(rng, dt, len, Cfg::wild(0)),
+        };
+        let mut valid = vec![true; len];
+        valid[rng.below(len)] = false; // exactly one null: sparse for every kernel heuristic
         let d = a.to_data().into_builder().nulls(Some(arrow_buffer::NullBuffer::from(valid))).build().unwrap();
         make_array(d)
     };
@@ -417,6 +427,9 @@ fn main() {
         for dt in &types {
             unary_kernels(&mut rng, &mut c, dt, args.thorough());
             binary_kernels(&mut rng, &mut c, dt, args.thorough());
+            if dt.is_primitive() {
+                binary_kernels(&mut rng, &mut c, dt, args.thorough());
+            }
             // the boolean kernels work on bit-packed data at arbitrary offsets: more layouts
             if let DataType::Boolean = dt {
                 for _ in 0..10 {
